@@ -344,10 +344,12 @@ impl Part for NetworksRealTime {
     fn name(&self) -> &'static str { "networks-realtime" }
     fn deterministic(&self) -> bool { false }
     fn rule(&self) -> &'static str {
-        "the [networks] scenario executed in REAL time (unpaused clock; one-way delays 250-600 ms each way so that the two handshakes and the tie-break are seconds apart, offsets within +-300 ms, no loss, idle timeout 2.5 s): same convergence oracle (quiet period shortened to one idle timeout); exists because the library reads std::time::Instant in places, which virtual time cannot drive; non-trivial = every case; distinct by case"
+        "the [networks] scenario executed in REAL time (unpaused clock; one-way delays 250-1200 ms each way so that the two handshakes and the tie-break are seconds apart, offsets within +-300 ms or up to +-3 s (the later dial meets a connection that has been up for seconds), no loss, idle timeout 2.5 s): same convergence oracle (quiet period shortened to one idle timeout); exists because the library reads std::time::Instant in places, which virtual time cannot drive; non-trivial = every case; distinct by case"
     }
     fn strategy(&self, _t: Tier) -> BoxedStrategy<NetCase> {
-        (0u8..12, 0u8..12, -300i16..300, 250u16..600, 250u16..600, any::<u64>())
+        // offsets of seconds: the later dial then meets a connection that has been registered for a while
+        let delay = || prop_oneof![2 => 250u16..600, 1 => 600u16..1200];
+        (0u8..12, 0u8..12, prop_oneof![1 => -300i16..300, 1 => -3000i16..3000, 1 => prop_oneof![-3000i16..-2200, 2200i16..3000]], delay(), delay(), any::<u64>())
             .prop_map(|(key_a, key_b, offset_ms, delay_ab_ms, delay_ba_ms, fault_seed)| NetCase { key_a, key_b, offset_ms, delay_ab_ms, delay_ba_ms, known_peers: false, loss: vec![], fault_seed })
             .boxed()
     }
@@ -365,6 +367,6 @@ pub fn run(tier: Tier) -> i32 {
     ctx.run_part(BothSidesPart, tier.pick(1_500, 40_000));
     ctx.run_part(Networks, tier.pick(1_200, 30_000));
     ctx.assume("the real-time part costs wall-clock time and is not a pure function of the seed; its oracle only looks at the converged end state");
-    ctx.run_part_threads(NetworksRealTime, tier.pick(16, 160), 16);
+    ctx.run_part_threads(NetworksRealTime, tier.pick(32, 320), 16);
     ctx.finish()
 }
